@@ -83,6 +83,7 @@ type guardState struct {
 	info   *types.Info
 	g      *cfg.CFG
 	in     []factSet
+	in2    []factSet           // phase 2: in-sets enriched with merge implications (nil if not computed)
 	paths  map[string][]string // fact -> access paths it mentions
 	caseOf map[*ast.CaseClause]ast.Stmt
 	single map[*types.Var]ast.Expr // locals assigned exactly once, with initialiser
@@ -130,6 +131,7 @@ func (p *Program) Guards(f *FuncSrc, conf *GuardConfig) *guardState {
 	gs := &guardState{f: f, conf: conf, info: f.Pkg.TypesInfo, g: p.CFG(f), paths: map[string][]string{}, caseOf: map[*ast.CaseClause]ast.Stmt{}, single: map[*types.Var]ast.Expr{}}
 	gs.prepare()
 	gs.solve()
+	gs.solveImplications()
 	guardCache[key] = gs
 	return gs
 }
@@ -840,12 +842,13 @@ func (gs *guardState) At(pos token.Pos) (factSet, bool) {
 	if b == nil || !b.Live || gs.in[b.Index] == nil {
 		return nil, false
 	}
-	s := gs.in[b.Index].clone()
+	s := gs.entryFacts(b).clone()
 	for _, nd := range b.Nodes[:idx] {
 		gs.transfer(s, nd)
 	}
 	// facts from short-circuit operands inside the node
 	gs.innerFacts(s, b.Nodes[idx], pos)
+	gs.closeImplications(s)
 	return s, true
 }
 
@@ -855,10 +858,11 @@ func (gs *guardState) After(pos token.Pos) (factSet, bool) {
 	if b == nil || !b.Live || gs.in[b.Index] == nil {
 		return nil, false
 	}
-	s := gs.in[b.Index].clone()
+	s := gs.entryFacts(b).clone()
 	for _, nd := range b.Nodes[:idx+1] {
 		gs.transfer(s, nd)
 	}
+	gs.closeImplications(s)
 	return s, true
 }
 
@@ -1028,4 +1032,169 @@ func callsIn(f *FuncSrc) []*ast.CallExpr {
 		return true
 	})
 	return out
+}
+
+// ---- phase 2: implications created at merges ----
+//
+// When control merges from a branch P on which fact f holds and a branch Q on
+// which literal g holds (and f does not), then at the merge point "not g"
+// implies we came through P, hence f:  J:<not g>=><f>.  Implication facts are
+// killed like their parts.  They let a later site guarded by <not g> recover f
+// (e.g. Session: the statement is cloned under Context != nil || ..., and the
+// Context store is guarded by Context != nil).  Computed in one pass in
+// reverse post-order; back edges contribute their phase-1 (plain) facts.
+
+func (gs *guardState) entryFacts(b *cfg.Block) factSet {
+	if gs.in2 != nil && gs.in2[b.Index] != nil {
+		return gs.in2[b.Index]
+	}
+	return gs.in[b.Index]
+}
+
+func isLiteralFact(f string) bool {
+	return strings.HasPrefix(f, "T:") || strings.HasPrefix(f, "F:") || strings.HasPrefix(f, "N:") || strings.HasPrefix(f, "NN:")
+}
+
+func isCarriedFact(f string) bool {
+	return strings.HasPrefix(f, "E:") || strings.HasPrefix(f, "C:")
+}
+
+func (gs *guardState) closeImplications(s factSet) {
+	for changed := true; changed; {
+		changed = false
+		for k := range s {
+			if !strings.HasPrefix(k, "J:") {
+				continue
+			}
+			i := strings.Index(k, "=>")
+			h, f := k[2:i], k[i+2:]
+			if s.Has(h) && !s.Has(f) {
+				s[f] = struct{}{}
+				changed = true
+			}
+		}
+	}
+}
+
+func (gs *guardState) mergeWithImplications(a, b factSet) factSet {
+	out := factSet{}
+	for k := range a {
+		if b.Has(k) {
+			out[k] = struct{}{}
+		}
+	}
+	gen := func(x, y factSet) {
+		// facts of x missing in y, conditioned on the negation of y's literals
+		for f := range x {
+			if y.Has(f) {
+				continue
+			}
+			if isCarriedFact(f) {
+				for g := range y {
+					if !isLiteralFact(g) || x.Has(g) {
+						continue
+					}
+					h := complement(g)
+					imp := "J:" + h + "=>" + f
+					gs.paths[imp] = append(append([]string{}, gs.paths[g]...), gs.paths[f]...)
+					out[imp] = struct{}{}
+				}
+			}
+			if strings.HasPrefix(f, "J:") {
+				// an implication survives if the other side makes it vacuous or satisfied
+				i := strings.Index(f, "=>")
+				h, c := f[2:i], f[i+2:]
+				if y.Has(c) || y.Has(complement(h)) {
+					out[f] = struct{}{}
+				}
+			}
+		}
+	}
+	gen(a, b)
+	gen(b, a)
+	return out
+}
+
+func (gs *guardState) solveImplications() {
+	n := len(gs.g.Blocks)
+	if n == 0 {
+		return
+	}
+	// reverse post-order
+	order := make([]*cfg.Block, 0, n)
+	seen := make([]bool, n)
+	var dfs func(b *cfg.Block)
+	dfs = func(b *cfg.Block) {
+		seen[b.Index] = true
+		for _, s := range b.Succs {
+			if !seen[s.Index] {
+				dfs(s)
+			}
+		}
+		order = append(order, b)
+	}
+	dfs(gs.g.Blocks[0])
+	for i, j := 0, len(order)-1; i < j; i, j = i+1, j-1 {
+		order[i], order[j] = order[j], order[i]
+	}
+	rank := make([]int, n)
+	for i := range rank {
+		rank[i] = -1
+	}
+	for i, b := range order {
+		rank[b.Index] = i
+	}
+	preds := make([][]*cfg.Block, n)
+	for _, b := range gs.g.Blocks {
+		for _, s := range b.Succs {
+			preds[s.Index] = append(preds[s.Index], b)
+		}
+	}
+	in2 := make([]factSet, n)
+	in2[0] = gs.in[0].clone()
+	for _, b := range order {
+		if b.Index == 0 || gs.in[b.Index] == nil {
+			continue
+		}
+		var acc factSet
+		first := true
+		for _, p := range preds[b.Index] {
+			if !p.Live || gs.in[p.Index] == nil || rank[p.Index] < 0 {
+				continue
+			}
+			var src factSet
+			if rank[p.Index] < rank[b.Index] && in2[p.Index] != nil {
+				src = in2[p.Index]
+			} else {
+				src = gs.in[p.Index] // back edge: plain facts
+			}
+			o := src.clone()
+			for _, nd := range p.Nodes {
+				gs.transfer(o, nd)
+			}
+			for i, s := range p.Succs {
+				if s != b {
+					continue
+				}
+				o2 := o.clone()
+				for _, f := range gs.edgeFacts(p, i, o) {
+					o2[f] = struct{}{}
+				}
+				if first {
+					acc, first = o2, false
+				} else {
+					acc = gs.mergeWithImplications(acc, o2)
+				}
+			}
+		}
+		if first {
+			continue
+		}
+		// never claim less than phase 1 proved
+		for k := range gs.in[b.Index] {
+			acc[k] = struct{}{}
+		}
+		in2[b.Index] = acc
+	}
+	gs.in2 = in2
 }
